@@ -44,6 +44,11 @@ type c15Model struct {
 	SeqOntoNonDir, SeqDstMissing, FirstMatchDir bool
 	NMatches                                    int
 	Events                                      []string // collisions seen, e.g. "f>l:replace"
+	// NondirDot: a non-directory source spelled "x/." was placed inside an
+	// existing destination directory (it behaves exactly like "x").
+	// DirOverNondir: a directory source (CopyDirContents off) met an existing
+	// non-directory at dst: rule 5 decides (conflict, or the source wins).
+	NondirDot, DirOverNondir bool
 	// Origin names, for every destination path a non-directory source entry
 	// landed on during this call, the source path of the LAST such landing
 	// (the union of the matches applied in order: the last one wins).
@@ -345,11 +350,27 @@ func c15Overlay(src *tree.Tree, srcRoot tree.Entry, dst *tree.Tree, srcArg, dstA
 			}
 			return m
 		}
-		// rule 2
+		// rule 2, from the statement: a source directory lands inside an
+		// existing destination DIRECTORY under its own name unless
+		// directory-contents mode is on; a file (any non-directory) copied to
+		// an existing directory lands inside it. Everything else lands at dst
+		// itself - in particular a directory source meeting an existing
+		// non-directory, which is rule 5's conflict (error and the obstacle
+		// stays, or with always-replace the source wins).
 		base := path.Base(s)
 		L := R
 		sDir := se.Type == tree.Dir
-		if (sDir && !fl.CDC && re != nil) || (!sDir && re != nil && re.Type == tree.Dir) {
+		if !sDir && base == "." {
+			// "x/." names the non-directory x itself
+			base = path.Base(path.Clean("/" + s))
+			if re != nil && re.Type == tree.Dir {
+				m.NondirDot = true
+			}
+		}
+		if sDir && !fl.CDC && re != nil && re.Type != tree.Dir {
+			m.DirOverNondir = true
+		}
+		if re != nil && re.Type == tree.Dir && (!sDir || !fl.CDC) {
 			if base != "." && base != "/" {
 				L = relJoin(R, base)
 			}
@@ -374,7 +395,7 @@ func init() {
 		ID:    "C15",
 		Level: "exploration",
 		Rule: "source and destination trees (<=14 entries each, depth<=3) are generated independently over the shared names {a,b,ab,c,d,e,...,..a} (two legal names made of or starting with dots); source types f,d,l,fifo,char, destination additionally sockets, so every (source type, destination type) pair collides. " +
-			"src argument: a source entry, the root ('.', '/', '/.', ''), 'dir/.', or a wildcard ('*','a*','?','[a-c]*','dir/*','*/a'); dst argument: existing directory / non-directory, new name, nested not-yet-existing 'n1/n2', the root, a path below a non-directory; optional leading and trailing separator; flags = random subset of {CopyDirContents, AlwaysReplace, AllowWildcards}. No argument traverses a symlink (C14 does that). " +
+			"src argument: a source entry, the root ('.', '/', '/.', ''), 'dir/.', or a wildcard ('*','a*','?','[a-c]*','dir/*','*/a'); dst argument: existing directory / non-directory, new name, nested not-yet-existing 'n1/n2', the root, a path below a non-directory; optional leading and trailing separator; flags = random subset of {CopyDirContents, AlwaysReplace, AllowWildcards}. About one case in twelve spells the source 'x/.' for an entry x of any type (three quarters non-directories: it behaves exactly like 'x'; violations there are reported as nondir-dot-source), one in twenty-four copies a directory (directory-contents off) onto an existing non-directory (rule 5: conflict, obstacle stays; with always-replace the source wins - reported as dir-over-nondir-always-replace). No argument traverses a symlink (C14 does that). " +
 			"fs.Copy runs on disk in a chroot jail and is compared with the executable overlay model (rules 1-7 of DESIGN C15): expected success => snapshot equals the model in paths, types, bytes, targets, rdev, mode/owner (not for directories made only for the path; an existing top-level landing directory keeps its own) and xattrs (nested merged directories: source's added, old ones may stay), unrelated entries keep inode and bytes; expected error => the call fails and the obstacle (with its subtree) keeps inode, type, bytes. A wildcard source is modelled as the sequence of single-source copies of its matches in walk order, each one re-evaluating whether dst exists and is a directory (also when dst does not exist yet or is a non-directory: the first match creates/replaces it, the later ones meet the result); one case in seven is drawn for exactly that: a pattern with >=2 matches whose first match is a directory (the lexically first source entry is turned into a directory in two thirds of them) onto a not-yet-existing plain or nested dst. Any outcome is accepted (and counted by reason) only for: a wildcard without matches, a wildcard prefix that is not a plain directory, and a dst that is a symlink or that an earlier match of the same call turned into a symlink (where later matches go is symlink resolution, C14). " +
 			"Every successful copy is repeated: the second run is checked against the model applied to the first result, and when the landing path is the same the two snapshots must agree in everything but inode/ctime/atime and the mtime of proper ancestors of the landing path. " +
 			"One case in three gives the source tree one or two hard-link groups (regular files, one time in five fifos; 1-3 further names in other directories, names from the same universe), half of them with the stacking shape arranged (D1/n member, D2/n other content, D3/m member, D1<D2<D3 top-level directories) and wildcards that sweep several directories ('*/*', '?/*', '*/<member name>') onto a directory; the model keeps, per destination path, the LAST source entry that landed there (union of the matches applied in order) and demands its bytes whatever the inode sharing (signature wildcard-link-content when that source is a member of a link group); destination paths whose last-landing sources are members of one source inode must share an inode, judged only for groups none of whose images was overwritten, removed or stacked during the call (others counted as link_groups_not_judged_image_overwritten_during_call). non-trivial = at least one source entry met an existing destination entry (merge, replace or conflict) or the destination path met a non-directory; distinct by (trees, arguments, flags) fingerprint",
@@ -695,6 +716,16 @@ func c15Check(r *core.Result, pre string, ctx string, m *c15Model, before, got *
 
 func c15Run(c *core.Ctx) *core.Result {
 	r := &core.Result{}
+	// cases that exercise one of two named rules report under the rule's name
+	relabel := ""
+	defer func() {
+		if relabel != "" {
+			for i := range r.Viols {
+				r.Viols[i].Msg = "[" + r.Viols[i].Sig + "] " + r.Viols[i].Msg
+				r.Viols[i].Sig = relabel
+			}
+		}
+	}()
 	if !needRoot(r) {
 		return r
 	}
@@ -783,6 +814,63 @@ func c15Run(c *core.Ctx) *core.Result {
 			}
 		}
 	}
+	// two further modes, drawn from a generator of their own: (1) a source
+	// spelled "x/." for an entry x of any type (mostly non-directories) onto
+	// an existing directory or the root; (2) a directory source, directory
+	// contents mode off, onto an existing non-directory
+	xr := core.NewRand(core.Mix(c.Seed, "C15-rules", c.Index))
+	switch xr.Weighted([]int{2, 1, 21}) {
+	case 0:
+		var non, all []string
+		for _, e := range srcT.Entries {
+			all = append(all, e.Path)
+			if e.Type != tree.Dir {
+				non = append(non, e.Path)
+			}
+		}
+		if len(all) > 0 {
+			x := core.Pick(xr, all)
+			if len(non) > 0 && xr.P(3, 4) {
+				x = core.Pick(xr, non)
+			}
+			srcArg = x + "/."
+			if xr.P(1, 4) {
+				srcArg = "/" + srcArg
+			}
+			wild = xr.P(1, 8)
+			if xr.P(2, 3) {
+				var dirs []string
+				for _, e := range dstT.Entries {
+					if e.Type == tree.Dir && !strings.Contains(e.Path, "/") {
+						dirs = append(dirs, e.Path)
+					}
+				}
+				if len(dirs) > 0 && xr.P(1, 2) {
+					dstArg = core.Pick(xr, dirs)
+				} else {
+					dstArg = core.Pick(xr, []string{"/", "", ".", "new/"})
+				}
+			}
+			fl.Always = xr.P(1, 2)
+		}
+	case 1:
+		var sdirs, dnon []string
+		for _, e := range srcT.Entries {
+			if e.Type == tree.Dir {
+				sdirs = append(sdirs, e.Path)
+			}
+		}
+		for _, e := range dstT.Entries {
+			if e.Type != tree.Dir && e.Type != tree.Symlink && !strings.Contains(e.Path, "/") {
+				dnon = append(dnon, e.Path)
+			}
+		}
+		if len(sdirs) > 0 && len(dnon) > 0 {
+			srcArg, dstArg, wild = core.Pick(xr, sdirs), core.Pick(xr, dnon), false
+			fl.CDC = false
+			fl.Always = xr.P(1, 2)
+		}
+	}
 	fl.Wild = wild
 
 	sample := map[string]any{"src_tree": srcT.Lines(), "dst_tree": dstT.Lines(), "src": srcArg, "dst": dstArg, "flags": fl.String()}
@@ -808,7 +896,30 @@ func c15Run(c *core.Ctx) *core.Result {
 	}
 	m := c15Overlay(srcSnap, rootMeta, before, srcArg, dstArg, fl)
 
+	switch {
+	case m.NondirDot:
+		relabel = "nondir-dot-source"
+	case m.DirOverNondir && fl.Always:
+		relabel = "dir-over-nondir-always-replace"
+	}
 	cerr := runCopy(srcRoot, srcArg, dstRoot, dstArg, fl)
+	rootGone := func(when string) bool {
+		// the destination root itself must survive as the directory it was
+		// (never walked into when it is not: it may have become a fifo)
+		e, err := tree.LstatEntry(dstRoot, tree.SnapOpt{NoData: true})
+		if err != nil || e.Type != tree.Dir {
+			what := "removed"
+			if err == nil {
+				what = fmt.Sprintf("replaced by an entry of type %c", e.Type)
+			}
+			r.Violate("dst-root-replaced", "%s: after %s the destination root itself was %s (err=%v)", ctx, when, what, cerr)
+			return true
+		}
+		return false
+	}
+	if rootGone("the copy") {
+		return r
+	}
 	got, err := tree.Snapshot(dstRoot, tree.SnapOpt{})
 	if err != nil {
 		r.Violate("dst-unreadable", "%s: destination cannot be snapshotted after the copy: %v", ctx, err)
@@ -818,6 +929,18 @@ func c15Run(c *core.Ctx) *core.Result {
 		sample["error"] = cerr.Error()
 	}
 	sample["model"] = map[string]any{"err": m.Err, "why": m.ErrWhy, "obstacle": m.Obstacle, "any": m.Any, "landings": m.Landings, "events": m.Events}
+	switch {
+	case m.NondirDot:
+		r.Count("nondir_dot_source_into_existing_directory", 1)
+		if fl.Always {
+			r.Count("nondir_dot_source_into_existing_directory_always_replace", 1)
+		}
+	case m.DirOverNondir:
+		r.Count("dir_source_onto_existing_non_directory", 1)
+		if fl.Always {
+			r.Count("dir_source_onto_existing_non_directory_always_replace", 1)
+		}
+	}
 	c15Check(r, "", ctx, m, before, got, cerr)
 
 	// what the case exercised
@@ -895,6 +1018,9 @@ func c15Run(c *core.Ctx) *core.Result {
 	// rule 7: repeat the successful copy
 	m2 := c15Overlay(srcSnap, rootMeta, got, srcArg, dstArg, fl)
 	cerr2 := runCopy(srcRoot, srcArg, dstRoot, dstArg, fl)
+	if rootGone("the repeated copy") {
+		return r
+	}
 	got2, err := tree.Snapshot(dstRoot, tree.SnapOpt{})
 	if err != nil {
 		r.Violate("dst-unreadable", "%s: destination cannot be snapshotted after the repeated copy: %v", ctx, err)
